@@ -20,6 +20,7 @@ From Coq Require Import List Bool ZArith String Permutation.
 Import ListNotations.
 Require Import MV.Spec.Rel MV.Model.MergePyDict MV.Model.MergeLibRef MV.Proofs.RelLemmas MV.Proofs.MergePyDictP
                MV.Proofs.MergeLibRefP.
+Require Import MV.Model.RoutingJ MV.Model.JoinCall MV.Model.JoinCallEmpty MV.Proofs.JoinCallEmptyP.
 Open Scope string_scope.
 Open Scope list_scope.
 
@@ -155,3 +156,119 @@ Example C12_hypotheses_satisfiable :
   map canon (merge_pydict idord JUnion ex_UL ex_UR ["k"] ["k"]) =
     [ [("a", VInt 10); ("k", VInt 1)]; [("a", VInt 20); ("k", VInt 2)]; [("k", VInt 3)] ]%Z.
 Proof. exact example_outside_domains_l. Qed.
+
+(* ==================================================================================================================== *)
+(* The EMPTY boundary: the operators when the right-hand table has 0 rows, and the JoinStep's engine call
+   (Model/JoinCall.v merge_data, Model/JoinCallEmpty.v; proofs Proofs/JoinCallEmptyP.v).
+
+   Schema of an empty table.  Spec/Rel.v has no schema: `table_cols [] = []`, an unbound column reads as null and bag_eq identifies
+   a row with its null-padded versions.  That is a list-of-dicts framework (PythonDict: `[]` has no column names; known findings
+   C14 kf_empty / C05-pydict-empty-join).  pandas DataFrames and pyarrow Tables KEEP their columns when they have 0 rows, and a
+   LEFT / OUTER join with such a table adds its columns, null in every row.  Model/JoinCallEmpty.v therefore carries the schema
+   explicitly (`stable` = (columns, rows); `srel_join` = rel_join on the rows + every row padded to `join_schema lcols rcols` =
+   left columns ++ right columns the left table does not have).  The tie (harness/c12_pipe.py) compares BOTH the column set and
+   the bag of rows. *)
+
+(* schema-less model: for all left tables and key lists *)
+Theorem C12_inner_join_empty_right : forall lk rk L,
+  rel_join JInner lk rk L [] = [] /\ rel_join JRight lk rk L [] = [].
+Proof. intros; split; [apply rel_join_inner_empty_right_l | apply rel_join_right_empty_right_l]. Qed.
+Print Assumptions C12_inner_join_empty_right.
+
+Theorem C12_left_outer_join_empty_right_schemaless : forall lk rk L,
+  rel_join JLeft lk rk L [] = L /\ rel_join JOuter lk rk L [] = L.
+Proof. intros; split; [apply rel_join_left_empty_right_l | apply rel_join_outer_empty_right_l]. Qed.
+Print Assumptions C12_left_outer_join_empty_right_schemaless.
+
+Theorem C12_append_empty_right : forall L, rel_append L [] = L.
+Proof. exact rel_append_empty_right_l. Qed.
+Print Assumptions C12_append_empty_right.
+
+(* union with an empty table is NOT the identity: it removes the duplicate rows of the left table *)
+Theorem C12_union_empty_right : forall L, rel_union L [] = distinct L.
+Proof. exact rel_union_empty_right_l. Qed.
+Print Assumptions C12_union_empty_right.
+
+Theorem C12_union_empty_right_identity_iff : forall L, rel_union L [] = L <-> NoDup (map canon L).
+Proof. exact rel_union_empty_right_id_iff_l. Qed.
+Print Assumptions C12_union_empty_right_identity_iff.
+
+(* with schemas: the columns of EVERY result (all join types, all tables) are the joint schema, and every row binds all of them *)
+Theorem C12_result_columns : forall jt lk rk S T,
+  st_cols (srel_join jt lk rk S T) = join_schema (st_cols S) (st_cols T) /\
+  (forall c, In c (join_schema (st_cols S) (st_cols T)) <-> In c (st_cols S) \/ In c (st_cols T)) /\
+  (forall r c, In r (st_rows (srel_join jt lk rk S T)) -> In c (st_cols S) \/ In c (st_cols T) -> has_col c r = true) /\
+  bag_eq (st_rows (srel_join jt lk rk S T)) (rel_join jt lk rk (st_rows S) (st_rows T)).
+Proof.
+  intros. split; [apply srel_join_cols_l|]. split; [intros c; apply join_schema_in|].
+  split; [apply srel_join_binds_schema_l | apply srel_join_rows_l].
+Qed.
+Print Assumptions C12_result_columns.
+
+(* LEFT / OUTER (and APPEND) with an empty right table of schema rcols: the left rows padded to the joint schema *)
+Theorem C12_left_outer_join_empty_right : forall jt lk rk lcols rcols L,
+  jt = JLeft \/ jt = JOuter \/ jt = JAppend ->
+  srel_join jt lk rk (lcols, L) (rcols, []) = (join_schema lcols rcols, map (pad (join_schema lcols rcols)) L).
+Proof. exact srel_join_left_empty_right_l. Qed.
+Print Assumptions C12_left_outer_join_empty_right.
+
+(* uniform tables (every row binds exactly the schema: a DataFrame / Table): each left row followed by one null per column of
+   the right schema that the left table does not have (incl. a differently named right key); the result is uniform again *)
+Theorem C12_left_outer_join_empty_right_uniform : forall jt lk rk lcols rcols L,
+  jt = JLeft \/ jt = JOuter \/ jt = JAppend -> uniform (lcols, L) ->
+  st_rows (srel_join jt lk rk (lcols, L) (rcols, [])) = map (fun r => r ++ null_row (new_cols lcols rcols)) L /\
+  uniform (srel_join jt lk rk (lcols, L) (rcols, [])).
+Proof. exact uniform_left_empty_right_l. Qed.
+Print Assumptions C12_left_outer_join_empty_right_uniform.
+
+Theorem C12_left_outer_join_empty_right_values : forall jt lk rk lcols rcols L r,
+  jt = JLeft \/ jt = JOuter \/ jt = JAppend -> uniform (lcols, L) ->
+  In r (st_rows (srel_join jt lk rk (lcols, L) (rcols, []))) ->
+  exists r0, In r0 L /\ (forall c, get c r = get c r0) /\
+             (forall c, In c rcols -> mem c lcols = false -> lookup c r = Some VNull).
+Proof. exact left_empty_right_values_l. Qed.
+Print Assumptions C12_left_outer_join_empty_right_values.
+
+Theorem C12_inner_join_empty_right_schema : forall jt lk rk lcols rcols L,
+  jt = JInner \/ jt = JRight -> srel_join jt lk rk (lcols, L) (rcols, []) = (join_schema lcols rcols, []).
+Proof. exact srel_join_inner_empty_right_l. Qed.
+Print Assumptions C12_inner_join_empty_right_schema.
+
+Theorem C12_union_empty_right_schema : forall lk rk lcols rcols L,
+  srel_join JUnion lk rk (lcols, L) (rcols, []) = (join_schema lcols rcols, map (pad (join_schema lcols rcols)) (distinct L)).
+Proof. exact srel_join_union_empty_right_l. Qed.
+Print Assumptions C12_union_empty_right_schema.
+
+(* JoinStep._merge_data has no special case: the engine is called for EVERY pair of tables (also 0-row ones), with the Link's
+   join type and indexes; with the relational engine the step therefore writes the operator above *)
+Theorem C12_merge_call_total : forall l,
+  (forall (E : engine) target other, merge_data E l target other = E (ld_jt l) (ld_left l) (ld_right l) target other) /\
+  (forall (E : sengine) target other, smerge_data E l target other = E (ld_jt l) (ld_left l) (ld_right l) target other) /\
+  (forall S T, st_cols (smerge_data srel_join l S T) = join_schema (st_cols S) (st_cols T) /\
+               bag_eq (st_rows (smerge_data srel_join l S T)) (merge_data rel_join l (st_rows S) (st_rows T))).
+Proof. intros l. split; [reflexivity|]. split; [reflexivity|]. apply smerge_data_is_merge_data_l. Qed.
+Print Assumptions C12_merge_call_total.
+
+(* why ordinary runs cannot tell the early return ("left-preserving join type and 0 rows on the right: keep the target") from
+   the code: it is the code whenever the other table has a row, and in the schema-less view (bags of rows, absent = null) also
+   for LEFT / OUTER / APPEND with 0 rows - there only UNION differs.  The column set must be observed. *)
+Theorem C12_merge_call_skip_invisible : forall l,
+  (forall (E : sengine) target other, st_rows other <> [] ->
+     smerge_data_skip_empty E l target other = smerge_data E l target other) /\
+  (ld_jt l <> JUnion -> forall L R, merge_data_skip_empty rel_join l L R = merge_data rel_join l L R).
+Proof. intros l. split; [intros; now apply skip_empty_same_nonempty_l | intros; now apply skip_empty_schemaless_l]. Qed.
+Print Assumptions C12_merge_call_skip_invisible.
+
+(* seed C12_r6: LEFT / OUTER lose the right table's columns (rid, rval); UNION keeps the duplicate row of the left table *)
+Example C12_merge_call_skip_empty_right_refuted :
+  st_cols (smerge_data srel_join we_left (we_lcols, we_L) (we_rcols, [])) = ["lid"; "lval"; "rid"; "rval"] /\
+  st_cols (smerge_data_skip_empty srel_join we_left (we_lcols, we_L) (we_rcols, [])) = ["lid"; "lval"] /\
+  forallb (fun r => has_col "rval" r && has_col "rid" r) (st_rows (smerge_data srel_join we_left (we_lcols, we_L) (we_rcols, []))) = true /\
+  forallb (fun r => negb (has_col "rval" r) && negb (has_col "rid" r))
+          (st_rows (smerge_data_skip_empty srel_join we_left (we_lcols, we_L) (we_rcols, []))) = true /\
+  st_cols (smerge_data_skip_empty srel_join we_outer (we_lcols, we_L) (we_rcols, [])) = ["lid"; "lval"] /\
+  List.length (merge_data rel_join we_union we_L []) = 2%nat /\
+  List.length (merge_data_skip_empty rel_join we_union we_L []) = 3%nat /\
+  ~ bag_eq (merge_data_skip_empty rel_join we_union we_L []) (merge_data rel_join we_union we_L []).
+Proof. exact skip_empty_refuted_l. Qed.
+Print Assumptions C12_merge_call_skip_empty_right_refuted.
